@@ -7,7 +7,7 @@ const int LMAX = 1400;
 const char* RULE =
     "rapidcheck byte strings decoded into a history of 1..5 exponentials on one thread, each (n in 2..6; class: anti-Hermitian, normal "
     "W diag(z) W^dagger with bounded real spectrum, general dense, diagonal, nilpotent (permuted strictly triangular), triangular, "
-    "diagonal plus one tiny off-diagonal entry, widely different row scales; 1-norm log-uniform in 1e-8..1e3 for the normal classes and "
+    "diagonal plus one tiny off-diagonal entry, widely different row scales, rank-one nilpotent u v^dagger; 1-norm log-uniform in 1e-8..1e3 for the normal classes and "
     "1e-8..50 for the others), each checked. Oracle: |X-exp(A)|_F <= 64 eps (|L_exp(A)|_F |A|_F + |exp(A)|_F) against the closed form "
     "(normal, diagonal, nilpotent classes) or a long-double scaling-and-squaring Taylor reference, L_exp = Kronecker form of the Frechet "
     "derivative (analytic bound n e^{max Re z} for normal matrices); plus exp(A)exp(-A)=I, exp(A^T)=exp(A)^T, exp(PAP^T)=P exp(A) P^T. "
@@ -16,7 +16,7 @@ const char* RULE =
     "report the Pade band computed by the harness from exact power norms.";
 void harness_init() { quiet_gsl(); }
 
-static const char* CLS[] = {"antihermitian", "normal", "dense", "diagonal", "nilpotent", "triangular", "diag+tiny", "row-scales"};
+static const char* CLS[] = {"antihermitian", "normal", "dense", "diagonal", "nilpotent", "triangular", "diag+tiny", "row-scales", "rank1-nilpotent"};
 
 struct ExpCase { int n; unsigned cls; Mat A; Mat exact; bool has_exact; ld cond_bound; bool has_cond; ld target; };
 
@@ -30,7 +30,7 @@ static ld gen_norm(ByteSource& s, double maxlog10) {
   return powl(10.0L, (ld)e);
 }
 static ExpCase gen_case(ByteSource& s) {
-  ExpCase c; c.n = gen_dim(s); c.cls = s.choose(8); c.has_exact = false; c.has_cond = false; c.cond_bound = 0;
+  ExpCase c; c.n = gen_dim(s); c.cls = s.choose(9); c.has_exact = false; c.has_cond = false; c.cond_bound = 0;
   int n = c.n;
   bool normal_cls = c.cls == 0 || c.cls == 1;
   ld N = gen_norm(s, normal_cls ? 3.0 : log10(50.0));
@@ -75,6 +75,15 @@ static ExpCase gen_case(ByteSource& s) {
       for (int i = 0; i < n; i++) B.a[i][i] = cld(s.dense(), s.dense());
       int i = (int)s.choose(n), j = (int)s.choose(n); if (i == j) j = (i + 1) % n;
       B.a[i][j] = cld(std::ldexp(1.0 + s.unif01(), -s.range(1, 60)), s.flag() ? std::ldexp(1.0, -s.range(1, 60)) : 0.0);
+      break;
+    }
+    case 8: {  // u v^dagger with v orthogonal to u: nilpotent of index 2 without being triangular; the powers of |A| grow while A^2 = 0
+      std::vector<cld> u(n), v(n);
+      for (int i = 0; i < n; i++) { u[i] = cld(s.dense(), s.dense()); v[i] = cld(s.dense(), s.dense()); }
+      if (std::norm(u[0]) + std::norm(u[n - 1]) == 0) u[0] = cld(1, 0);
+      cld uv(0, 0), uu(0, 0); for (int i = 0; i < n; i++) { uv += std::conj(u[i]) * v[i]; uu += std::conj(u[i]) * u[i]; }
+      for (int i = 0; i < n; i++) v[i] -= u[i] * (uv / uu);
+      for (int i = 0; i < n; i++) for (int j = 0; j < n; j++) B.a[i][j] = u[i] * std::conj(v[j]);
       break;
     }
     default: {
